@@ -938,8 +938,8 @@ class C11(Monitor):
         bk, op = self.bk, st.op
         if op[0] == 'lost':
             pr = bk.proto(st.p)
-            if pr is None or pr['conns'] == 0 or pr['clean'] is not True or any(e['k'] == 'esc' for e in st.ev):
-                return
+            if pr is None or pr['conns'] == 0 or pr['clean'] is not True:
+                return       # (an exception escaping from the loss report does not excuse the Deferreds it leaves pending)
             a = pr['addr']
             reason = {'done': 'ConnectionDone', 'lostc': 'ConnectionLost', 'aborted': 'ConnectionAborted'}[op[2] if len(op) > 2 else 'done']
             fired = {}
